@@ -23,16 +23,26 @@ def run(ctx):
     def synth(sps, kind, nslots, seed, sigma):
         gv(sps=sps, R=1e9)
         rs = np.random.RandomState(seed)
-        bits = rs.randint(0, 2, nslots) if kind == "random" else np.resize(PRBS(7, 127, seed=seed % 126 + 1).data, nslots)
+        if kind in ("sparse-even", "sparse-odd", "sparse-mixed", "dense-even", "dense-mixed"):
+            # strongly unbalanced data: the rarer symbol in about 3 % of the slots, in even-numbered / odd-numbered / arbitrary slots
+            bits = np.zeros(nslots, dtype=int)
+            step = 32 if not kind.endswith("mixed") else 31
+            bits[np.arange(10 + (1 if kind.endswith("odd") else 0), nslots, step)] = 1
+            if kind.startswith("dense"):
+                bits = 1 - bits
+        else:
+            bits = rs.randint(0, 2, nslots) if kind == "random" else np.resize(PRBS(7, 127, seed=seed % 126 + 1).data, nslots)
         if bits.min() == bits.max():
             bits[0] = 1 - bits[0]
         base = LPF(np.kron(bits, np.ones(sps)).astype(float), 0.75e9).signal
         return base, rs.randn(base.size) * sigma
 
+    RESAMP = [128]
+
     def estimate(y, seed):
         np.random.seed(seed)
         with deadline(300):
-            return GET_EYE(protect(electrical_signal(y)), sps_resamp=128)
+            return GET_EYE(protect(electrical_signal(y)), sps_resamp=RESAMP[0])
 
     def fields(e):
         return [e.mu0, e.mu1, e.s0, e.s1, e.threshold, e.t_left, e.t_right, e.t_opt, e.i]
@@ -49,6 +59,12 @@ def run(ctx):
         sps = [16, 8, 32][it % 3]
         kind = "random" if it % 2 else "prbs"
         nslots = rnd.choice([64, 128, 256])
+        if it % 7 == 5:
+            kind, nslots = ["sparse-even", "dense-mixed", "sparse-odd", "dense-even", "sparse-mixed"][(it // 7) % 5], 512
+        # interpolation factor of the eye: the default of the tests, none, and factors that are not multiples of sps
+        RESAMP[0] = [128, 128, None, 24, 30, 64, 40, 2 * sps, 100][(it - it // 3) % 9] if it % 3 != 2 else 128
+        if (RESAMP[0] or sps) < 16:
+            RESAMP[0] = 24          # the timing bands (10 % of a slot) presuppose an eye time grid of at least 16 points per slot
         sigma = rnd.choice([0.005, 0.02, 0.05])
         a, b = pairs[it % len(pairs)]
         base, nz = synth(sps, kind, nslots, 100 + it, sigma)
@@ -59,11 +75,11 @@ def run(ctx):
         if ok:
             events.append({"kind": "est", "finite": True, "mu0e": ppm((e.mu0 - a) / d), "mu1e": ppm((e.mu1 - b) / d), "s0": ppm(e.s0 / d), "s1": ppm(e.s1 / d),
                            "sigma": ppm(sigma), "thr_in": bool(e.mu0 < e.threshold < e.mu1), "tdist_ppm": ppm(e.t_right - e.t_left),
-                           "topt_mid_ppm": ppm(e.t_opt - (e.t_left + e.t_right) / 2), "i": int(e.i), "i_int": bool(isinstance(e.i, (int, np.integer))), "sps": sps})
+                           "topt_mid_ppm": ppm(e.t_opt - (e.t_left + e.t_right) / 2), "i": int(e.i), "i_int": bool(isinstance(e.i, (int, np.integer))), "sps": sps, "grid": int(RESAMP[0] or sps), "populated": kind in ("random", "prbs")})
         else:
             events.append({"kind": "est", "finite": False})
         meta.append(("est", (a, b), sps, sigma))
-        ctx.case(("est", sps, kind, int(math.floor(math.log10(d))), a < 0, sigma), {"levels": [a, b], "sps": sps, "nslots": nslots, "sigma_rel": sigma, "pattern": kind})
+        ctx.case(("est", sps, kind, int(math.floor(math.log10(d))), a < 0, sigma, RESAMP[0]), {"levels": [a, b], "sps": sps, "nslots": nslots, "sigma_rel": sigma, "pattern": kind})
         if it % 3 != 2 or not ok:
             continue
         # equivariance twins under the same numpy seed
@@ -78,6 +94,22 @@ def run(ctx):
                                "dtl": ppm(e2.t_left - e.t_left), "dtr": ppm(e2.t_right - e.t_right), "dto": ppm(e2.t_opt - e.t_opt), "same_i": bool(e2.i == e.i)})
             meta.append(("equiv", (a, b), alpha, beta / d))
             ctx.case(("equiv", sps, int(math.floor(math.log10(alpha))), beta != 0))
+    RESAMP[0] = 128
+    # two records with the same number of samples but different samples per slot, one after the other (and back)
+    for it, seq in enumerate([[(16, 256), (32, 128), (16, 256)], [(8, 512), (32, 128), (16, 256)]] if T else [[(16, 256), (32, 128), (16, 256)]]):
+        for j, (sps, nslots) in enumerate(seq):
+            a, b, sigma = 0.0, 1.0, 0.02
+            base, nz = synth(sps, "random", nslots, 700 + it, sigma)
+            d = b - a
+            e = estimate(a + d * base + d * nz, 60 + j)
+            if finite(e):
+                events.append({"kind": "est", "finite": True, "mu0e": ppm((e.mu0 - a) / d), "mu1e": ppm((e.mu1 - b) / d), "s0": ppm(e.s0 / d), "s1": ppm(e.s1 / d),
+                               "sigma": ppm(sigma), "thr_in": bool(e.mu0 < e.threshold < e.mu1), "tdist_ppm": ppm(e.t_right - e.t_left),
+                               "topt_mid_ppm": ppm(e.t_opt - (e.t_left + e.t_right) / 2), "i": int(e.i), "i_int": bool(isinstance(e.i, (int, np.integer))), "sps": sps, "grid": int(RESAMP[0] or sps), "populated": True})
+            else:
+                events.append({"kind": "est", "finite": False})
+            meta.append(("est", (a, b), sps, "same-size-sequence"))
+            ctx.case(("est-sequence", it, j))
     # one record longer than the default eye window (4096 slots): the estimate must still be that of a clean eye
     for it in range(2 if T else 1):
         a, b, sigma, sps = [(0.0, 1.0), (-2.0, 3.0)][it], 0.0, 0.01, 8
@@ -88,7 +120,7 @@ def run(ctx):
         if finite(e):
             events.append({"kind": "est", "finite": True, "mu0e": ppm((e.mu0 - a) / d), "mu1e": ppm((e.mu1 - b) / d), "s0": ppm(e.s0 / d), "s1": ppm(e.s1 / d),
                            "sigma": ppm(sigma), "thr_in": bool(e.mu0 < e.threshold < e.mu1), "tdist_ppm": ppm(e.t_right - e.t_left),
-                           "topt_mid_ppm": ppm(e.t_opt - (e.t_left + e.t_right) / 2), "i": int(e.i), "i_int": bool(isinstance(e.i, (int, np.integer))), "sps": sps})
+                           "topt_mid_ppm": ppm(e.t_opt - (e.t_left + e.t_right) / 2), "i": int(e.i), "i_int": bool(isinstance(e.i, (int, np.integer))), "sps": sps, "grid": int(RESAMP[0] or sps), "populated": True})
         else:
             events.append({"kind": "est", "finite": False})
         meta.append(("est", (a, b), sps, "long-record"))
